@@ -6,6 +6,8 @@ package validator
 // pkg/util/signer or pkg/filters/validator for *producing* credentials:
 //
 //   - jwtEncode:   RFC 7515 compact serialization, HS256/384/512 (self-checked against RFC 7515 A.1)
+//   - numDate:     NumericDate claims (RFC 7519 §2) spelled in every form of the JSON number grammar
+//                  (integer, fraction, exponent; self-checked with math/big)
 //   - htpasswd*:   Apache htpasswd lines: bcrypt, {SHA}, {SSHA}, plain (self-checked with a known {SHA} vector)
 //   - sigV4*:      AWS Signature Version 4 written from the AWS documentation ("Create a canonical
 //                  request", "Create a string to sign", "Calculate the signature", "Add the signature
@@ -29,8 +31,11 @@ import (
 	"encoding/json"
 	"fmt"
 	"hash"
+	"math/big"
+	mrand "math/rand"
 	"net/http"
 	"sort"
+	"strconv"
 	"strings"
 	"time"
 
@@ -79,7 +84,101 @@ func jwtEncode(headerAlg, signAlg string, secret []byte, claims map[string]inter
 	return in + "." + jwtSignInput(signAlg, secret, in)
 }
 
+// numDate is a NumericDate claim value (RFC 7519 §2: "A JSON numeric value representing the
+// number of seconds from 1970-01-01T00:00:00Z UTC ... non-integer values can be represented")
+// together with the JSON number literal it is written as.  The issuer controls the literal: a
+// token issuer is free to use any form of the JSON number grammar (RFC 8259 §6: int [frac] [exp]).
+// The denoted instant always lies in [Sec, Sec+1) seconds.
+type numDate struct {
+	Sec  int64  // whole seconds of the denoted instant
+	Form string // class of literal, one of numForms
+	Text string // the JSON number literal
+}
+
+func (n numDate) MarshalJSON() ([]byte, error) { return []byte(n.Text), nil }
+
+// numForms: the ways a NumericDate is spelled.  "int" is what most issuers emit; the others are
+// equally legal JSON numbers: a fraction part (sub-second precision or ".0"), exponent notation
+// with the decimal point moved left (1.7e9 style, integral or not), and a negative exponent.
+var numForms = []string{"int", "frac", "frac-zero", "exp", "exp-frac", "exp-neg"}
+
+// numFormsNonInt are the forms whose literal is not a plain integer.
+var numFormsNonInt = numForms[1:]
+
+// mkNumDate spells sec in the given form.  All digits of sec are kept, so the literal denotes sec
+// exactly or sec plus a sub-second fraction.
+func mkNumDate(rng *mrand.Rand, sec int64, form string) numDate {
+	d := strconv.FormatInt(sec, 10)
+	pick := func(xs ...string) string { return xs[rng.Intn(len(xs))] }
+	sciExp := func() string { // exponent that moves the point behind the first digit back
+		e := len(d) - 1
+		switch rng.Intn(5) {
+		case 0:
+			return fmt.Sprintf("e%d", e)
+		case 1:
+			return fmt.Sprintf("E%d", e)
+		case 2:
+			return fmt.Sprintf("e+%d", e)
+		case 3:
+			return fmt.Sprintf("e+%02d", e)
+		}
+		return fmt.Sprintf("E+%02d", e)
+	}
+	n := numDate{Sec: sec, Form: form}
+	tail := d[1:] // digits behind the moved decimal point (a JSON frac needs at least one digit)
+	if tail == "" {
+		tail = "0"
+	}
+	switch form {
+	case "int":
+		n.Text = d
+	case "frac":
+		n.Text = d + "." + pick("5", "25", "75", "001", "999", "500000")
+	case "frac-zero":
+		n.Text = d + pick(".0", ".00", ".000000")
+	case "exp":
+		n.Text = d[:1] + "." + tail + sciExp()
+	case "exp-frac":
+		n.Text = d[:1] + "." + tail + pick("5", "25", "75", "001") + sciExp()
+	case "exp-neg":
+		n.Text = d + pick("0e-1", "00E-2", "000e-3", "5e-1", "25E-2", "999e-03")
+	default:
+		panic("unknown numDate form " + form)
+	}
+	return n
+}
+
+// numDateSelfCheck: every form must be a legal JSON number that denotes an instant in [sec, sec+1).
+func numDateSelfCheck() error {
+	rng := mrand.New(mrand.NewSource(7))
+	for _, sec := range []int64{1, 999999999, 1000000000, 1300819380, 1791047924, 4102444800, 10000000000} {
+		for _, f := range numForms {
+			for k := 0; k < 40; k++ {
+				n := mkNumDate(rng, sec, f)
+				if !json.Valid([]byte(n.Text)) {
+					return fmt.Errorf("numDate %s %q is not valid JSON", f, n.Text)
+				}
+				r, ok := new(big.Rat).SetString(n.Text)
+				if !ok {
+					return fmt.Errorf("numDate %s %q is not a number", f, n.Text)
+				}
+				lo, hi := new(big.Rat).SetInt64(sec), new(big.Rat).SetInt64(sec+1)
+				if r.Cmp(lo) < 0 || r.Cmp(hi) >= 0 {
+					return fmt.Errorf("numDate %s %q is outside [%d,%d)", f, n.Text, sec, sec+1)
+				}
+				if isInt := !strings.ContainsAny(n.Text, ".eE"); isInt != (f == "int") {
+					return fmt.Errorf("numDate %s %q: wrong literal class", f, n.Text)
+				}
+			}
+		}
+	}
+	return nil
+}
+
 func jwtSelfCheck() error {
+	if err := numDateSelfCheck(); err != nil {
+		return err
+	}
 	key, _ := base64.RawURLEncoding.DecodeString("AyM1SysPpbyDfgZld3umj1qzKObwVMkoqQ-EstJQLr_T-1qS0gZH75aKtMN3Yj0iPS4hcgUuTwjAzZr1Z9CAow")
 	in := "eyJ0eXAiOiJKV1QiLA0KICJhbGciOiJIUzI1NiJ9.eyJpc3MiOiJqb2UiLA0KICJleHAiOjEzMDA4MTkzODAsDQogImh0dHA6Ly9leGFtcGxlLmNvbS9pc19yb290Ijp0cnVlfQ"
 	if got := jwtSignInput("HS256", key, in); got != "dBjftJeZ4CVP-mB92K27uhbUJU1p1r_wW1gFWFOEjXk" {
